@@ -759,7 +759,57 @@ func runC08(o *out, thorough bool, r *rng, _ []string) map[string]interface{} {
 		reuseTwin(o, fields)
 	}
 	cloneMarshalMonitor(o, r, n/5)
+	callerBufferMonitor(o, r, n/2)
 	return nil
+}
+
+// callerBufferMonitor: data handed to Decode, Write, UnmarshalBinary, Add and the setters is copied: the
+// caller overwrites its buffer afterwards and nothing visible in the Message may change.  Destination
+// messages of every capacity class (nil, stun.New(), small, large) x inputs smaller and larger than it.
+func callerBufferMonitor(o *out, r *rng, n int) {
+	for i := 0; i < n; i++ {
+		var m *stun.Message
+		switch i % 4 {
+		case 0:
+			m = new(stun.Message)
+		case 1:
+			m = stun.New()
+		case 2:
+			m = &stun.Message{Raw: fill(r, r.rangeIn(1, 40), 1)[:0]}
+		default:
+			m = &stun.Message{Raw: fill(r, 4000, 1)[:0]}
+		}
+		data := r.validMessage(r.pick([]int{0, 2, 6, 12}), r.pick([]int{8, 60, 300}))
+		orig := append([]byte(nil), data...)
+		entry := i / 4 % 5
+		var err error
+		switch entry {
+		case 0:
+			err = stun.Decode(data, m)
+		case 1:
+			_, err = m.Write(data)
+		case 2:
+			err = m.UnmarshalBinary(data)
+		case 3:
+			m.WriteHeader()
+			m.Add(stun.AttrSoftware, data)
+		default:
+			m.WriteHeader()
+			u := stun.Username(data[:len(data)%500])
+			err = u.AddTo(m)
+		}
+		if err != nil {
+			continue
+		}
+		snap := fmt.Sprint(serMsg(m))
+		for k := range data {
+			data[k] ^= 0xA5
+		}
+		if fmt.Sprint(serMsg(m)) != snap {
+			o.failFor("C08", "caller-buffer-aliased", fmt.Sprintf("x entry=%d cap-class=%d len=%d %s", entry, i%4, len(orig), fHex(orig)))
+		}
+		o.count(fmt.Sprintf("caller-buffer:entry=%d", entry))
+	}
 }
 
 // reuseTwin replays all but the last operation on m, then applies the last operation (if it is a
@@ -962,6 +1012,34 @@ func runC09(o *out, thorough bool, r *rng, _ []string) map[string]interface{} {
 		}
 		o.run(301, append(st, ops...), true)
 		o.count("build-first-error-histories")
+	}
+	// refusals must leave the message untouched also when it was decoded from a buffer with bytes after the
+	// declared length and already carries FINGERPRINT (not necessarily last)
+	for i := 0; i < n/2; i++ {
+		var body []byte
+		for k := r.intn(3); k > 0; k-- {
+			body = append(body, r.tlv(0x8030, r.bytes(k), k)...)
+		}
+		if r.chance(3, 4) {
+			body = append(body, r.tlv(0x8028, r.bytes(4), 4)...)
+		}
+		for k := r.intn(3); k > 0; k-- {
+			body = append(body, r.tlv(0x8031, r.bytes(k+2), k+2)...)
+		}
+		data := append(append(header(0x0001, len(body), r.bytes(12)), body...), r.bytes(r.pick([]int{0, 1, 4, 8, 24, 40}))...)
+		refusing := []string{
+			withBytes([]int{10}, r.bytes(r.intn(30))),                               // MI (refused after FINGERPRINT)
+			withBytes([]int{4, 0}, r.bytes(514+r.intn(40))),                         // USERNAME too long
+			withBytes([]int{5, 0x0020, 1}, r.bytes(r.pick([]int{0, 3, 5, 15, 17}))), // bad IP length
+			numsField(8, r.pick([]int{0, 299, 999})),                                // no default reason
+			withBytes([]int{7, 400}, r.bytes(764+r.intn(9))),                        // reason too long
+		}
+		ops := []string{}
+		for j := r.rangeIn(1, 3); j > 0; j-- {
+			ops = append(ops, "7,"+refusing[r.intn(len(refusing))])
+		}
+		o.run(301, append([]string{"0", "-", fHex(data)}, ops...), true)
+		o.count("refusals-after-decode-with-trailing-bytes")
 	}
 	return map[string]interface{}{"exhaustive_part": "every text setter x every length 0..limit+300; ERROR-CODE reason lengths 0..1063; all codes 0..999 (default-reason setter and explicit-reason setter); IP lengths 0..20 x 6 XOR attribute types x 6 mapped attribute types"}
 }
